@@ -8,6 +8,8 @@
    escrow). The bounded-response statement over whole histories is NOT proved; the
    refutations below exhibit the two known ways an order stays unresolved (finding D15). *)
 From SaoVerif Require Import Base.Prelude Base.Ints Base.Dec Model.Did Model.Types Model.Monad Model.Bank Model.Select Model.Node Model.Storage Model.Sao Model.Hooks Model.App Model.Spec Proofs.Schedule.
+From RecordUpdate Require Import RecordUpdate.
+Import RecordSetNotations.
 
 Theorem C12_timeout_ignores_fully_stored : forall cx oid s o, orders s !! oid = Some o -> o_status o = OrderCompleted ->
   (forall id, In id (o_shards o) -> exists sh, shards s !! id = Some sh /\ sh_status sh = ShardCompleted) ->
